@@ -174,6 +174,25 @@ def ioutputs (render : Nat → Size → β) (key : Size → κ) [DecidableEq κ]
 
 end
 
+
+/-! ## the public drawing path: `Renderable.draw()` → `_animate_` -/
+namespace Draw
+open TIV.C08
+
+/-- `_animate_` constructs its iterator with `RenderIterator._from_render_data_(self, render_data,
+    render_args, padding, loops, False if loops == 1 else cache, finalize=False)` -/
+def initOf (i : Init) : Init := { i with cache := drawCache i.loops i.cache }
+
+/-- what `_animate_` does with the iterator: the first `next`, `set_padding(NO_PADDING)`, then one
+    `next` per further frame (`m` of them before the animation is interrupted or ends) -/
+def history (m : Nat) : List Op :=
+  .next :: .setPadding (.exact 0 0 0 0 0) :: List.replicate m .next
+
+/-- how often `_render_` was asked for frame `k` -/
+def renderCount {ρ O : Type} (s : St ρ O) (k : Int) : Nat := (s.calls.map (·.off)).count k
+
+end Draw
+
 /-- an injective size key (the demonstration instance for the theorems' hypothesis) -/
 def iKeyDemo (sz : Size) : Nat × Nat := (sz.w, sz.h)
 
